@@ -24,6 +24,7 @@ func TraverseAST(node ast.Node, env *Pass1) ast.Node {
 	case *ast.Program:
 		newStatements := make([]ast.Statement, 0, len(n.Statements))
 		for _, stmt := range n.Statements {
+			env.MacroExpansions = 0
 			// 各ステートメントを走査します。TraverseAST は Node を返すようになりました。
 			processedStmt := TraverseAST(stmt, env)
 			if processedStmt != nil {
@@ -278,6 +279,39 @@ func (p *Pass1) DefineMacro(name string, exp ast.Exp) {
 	p.MacroMap[name] = exp
 	log.Printf("debug: Defined macro '%s' = %s (stored as ast.Exp)", name, exp.TokenLiteral())
 
+}
+
+// maxMacroExpansionsPerStatement は 1 つの文の評価で許す EQU 展開の回数です。
+// 非定数の EQU は参照のまま保存されるので、A1 EQU A0+A0, A2 EQU A1+A1, ... のような連鎖は
+// 使用時に 2^n 回の展開になります。
+const maxMacroExpansionsPerStatement = 100000
+
+// EnterMacro は ast.MacroGuard を実装します。
+func (p *Pass1) EnterMacro(name string) bool {
+	if p.Expanding[name] {
+		log.Printf("error: EQU '%s' is defined in terms of itself", name)
+		return false
+	}
+	p.MacroExpansions++
+	if p.MacroExpansions > maxMacroExpansionsPerStatement {
+		if p.MacroExpansions == maxMacroExpansionsPerStatement+1 {
+			log.Printf("error: EQU '%s': more than %d expansions in one statement, giving up", name, maxMacroExpansionsPerStatement)
+		}
+		return false
+	}
+	if p.Expanding == nil {
+		p.Expanding = make(map[string]bool)
+	}
+	p.Expanding[name] = true
+	return true
+}
+
+// LeaveMacro は ast.MacroGuard を実装します。
+func (p *Pass1) LeaveMacro(name string) {
+	delete(p.Expanding, name)
+	if len(p.Expanding) == 0 {
+		p.Expanding = nil
+	}
 }
 
 // LookupMacro は、メソッドとして定義することにより、Pass1 の ast.Env インターフェースを実装します。
